@@ -55,11 +55,18 @@ def cases(rng, tier):
                     p["n"] = rng.choice([1, 1, 2, 3, 4, 0])
                     p["nform"] = rng.choice(["int", "int", "uint8", "int64"])       # the order as a Python int or a numpy scalar
                 out.append(p)
+                if rng.random() < 0.3:
+                    # the operand is itself the RESULT of a scan / sort / unique / diff (whose shape object the library built):
+                    # a derived array must behave like a freshly built one
+                    q = dict(p, pre=rng.choice(["unique", "unique", "counts", "sort", "diff1", "cumsum"]), vseed=rng.randint(0, 9999))
+                    pre_f = {"counts": "unique_counts", "diff1": "diff"}.get(q["pre"], q["pre"])
+                    if np.dtype(q["dtype"]).kind in "iub" and q["dtype"] in _dtypes_for(pre_f):
+                        out.append(q)
     return out
 
 
 def key(p):
-    return engine.stable_hash([p["lens"], p["f"], p["dtype"], p["mode"], p.get("n"), p["vseed"] % 3])
+    return engine.stable_hash([p["lens"], p["f"], p["dtype"], p["mode"], p.get("n"), p["vseed"] % 3, p.get("pre")])
 
 
 def nontrivial(p):
@@ -123,11 +130,28 @@ def _apply(p, obj, is_ra):
             return np.diff(obj, n=n, axis=ax) if is_ra else np.diff(obj, n=p["n"])
 
 
+def _pre(p, obj, is_ra):
+    pre = p.get("pre")
+    if pre is None:
+        return obj
+    with np.errstate(all="ignore"), warnings.catch_warnings():
+        warnings.simplefilter("ignore")
+        if pre == "unique":
+            return np.unique(obj, axis=-1) if is_ra else np.unique(obj)
+        if pre == "counts":
+            return np.unique(obj, axis=-1, return_counts=True)[1] if is_ra else np.unique(obj, return_counts=True)[1]
+        if pre == "sort":
+            return obj.sort(axis=-1) if is_ra else np.sort(obj)
+        if pre == "diff1":
+            return np.diff(obj, axis=-1) if is_ra else np.diff(obj)
+        return np.cumsum(obj, axis=-1) if is_ra else np.cumsum(obj)
+
+
 def run_impl(p):
     from npstructures import RaggedArray
     def f():
         vals = _vals(p)
-        ra = RaggedArray(vals.copy(), list(p["lens"]))
+        ra = _pre(p, RaggedArray(vals.copy(), list(p["lens"])), True)
         res = _apply(p, ra, True)
         if isinstance(res, tuple):
             return {"k": "obs", "values": canon(res[0]), "counts": canon(res[1])}
@@ -144,15 +168,16 @@ def oracle(p):
     rows, k = [], 0
     for l in p["lens"]:
         rows.append(vals[k:k + l]); k += l
+    rows = [_pre(p, r, False) for r in rows]
     res = [_apply(p, r, False) for r in rows]
-    probe = _apply(p, vals[:0], False)
+    probe = _apply(p, _pre(p, vals[:0], False), False)
     if p["f"] == "unique_counts":
         return {"k": "obs", "values": _ra_canon([r[0] for r in res], probe[0].dtype), "counts": _ra_canon([r[1] for r in res], np.dtype("int64"))}
     return {"k": "obs", "values": _ra_canon(res, probe.dtype)}
 
 
 def lean_request(p):
-    if not _is_small_int(p):
+    if not _is_small_int(p) or p.get("pre"):
         return None
     vals = _vals(p)
     rows, k = [], 0
